@@ -64,7 +64,7 @@ def gen_case(rng):
         else:
             ops.append(['record', gen_record(rng)])
     return {'ops': ops, 'ignore_invalid': rng.random() < 0.5, 'repair_normalize': rng.random() < 0.5, 'repair_drop': rng.random() < 0.3,
-            'fallback': rng.random() < 0.3, 'to_file': rng.random() < 0.5, 'initial_source': True}
+            'fallback': rng.random() < 0.3, 'to_file': rng.random() < 0.5, 'initial_source': True, 'multi_yield': rng.random() < 0.5}
 
 
 def make_transcoders(case):
@@ -86,6 +86,17 @@ def make_transcoders(case):
             def create_object_types(self, ontology):
                 for name, dt in OBJECT_TYPES.items():
                     ontology.create_object_type(name, data_type=dt)
+
+            def generate(self, rec, sel, **kwargs):
+                for ev in super().generate(rec, sel, **kwargs):
+                    tags = sorted(ev['tags']) if case.get('multi_yield') and 'tags' in ev else []
+                    if len(tags) > 1:
+                        # one output event per tag, re-using the event object (legal with a streaming consumer)
+                        for t in tags:
+                            ev['tags'] = [t]
+                            yield ev
+                    else:
+                        yield ev
         return T
     ts = {'ra': make('ra'), 'rb': make('rb')}
     if case['fallback']:
@@ -236,6 +247,21 @@ def classify(case, rec):
     return ('valid' if ok else 'invalid'), et, {'props': props, 'bad': sorted(set(bad_props))}
 
 
+def classify_all(case, rec):
+    """The events a record gives: a list of (status, event type, expectation); empty without a transcoder."""
+    status, et, exp = classify(case, rec)
+    if status == 'none':
+        return []
+    tags = exp['props'].get('tags', [])
+    if case.get('multi_yield') and len(tags) > 1:
+        out = []
+        for t in tags:
+            rec2 = dict(rec, tags=[t])
+            out.append(classify(case, rec2))
+        return out
+    return [(status, et, exp)]
+
+
 class C17(Property):
     id = 'C17'
     title = 'Transcoder mediators always emit one valid, complete EDXML stream'
@@ -277,6 +303,7 @@ class C17(Property):
         (an invalid event with automatic repair configured may or may not be repairable: C13 decides, not this machine)."""
         ops, decided = [], []
         idx = 0
+        by_exp = {}
         states = self.source_states(case)
         for n, op in enumerate(case['ops']):
             if op[0] == 'add_source':
@@ -286,16 +313,18 @@ class C17(Property):
                 ops.append({'k': 'setSource', 'uri': op[1]})
                 decided.append(True)
             else:
-                status, et, exp = classify(case, op[1])
+                evs = classify_all(case, op[1])
                 defined, cur = states[n]
-                idx += 1
-                if status == 'none':
-                    ops.append({'k': 'record', 'events': []})
-                    decided.append(True)
-                else:
+                mevs, dec = [], True
+                for status, et, exp in evs:
+                    idx += 1
                     valid = status == 'valid' and cur in defined
-                    ops.append({'k': 'record', 'events': [{'idx': idx, 'type': et, 'valid': valid}], 'n': n})
-                    decided.append(valid or not (case['repair_normalize'] or case['repair_drop']) or cur not in defined)
+                    mevs.append({'idx': idx, 'type': et, 'valid': valid})
+                    dec = dec and (valid or not (case['repair_normalize'] or case['repair_drop']) or cur not in defined)
+                    by_exp[idx] = (et, exp)
+                ops.append({'k': 'record', 'events': mevs, 'n': n})
+                decided.append(dec)
+        self._by_exp = by_exp
         return ops, decided
 
     def requests(self, case):
@@ -310,17 +339,13 @@ class C17(Property):
         calls = [('edxml:EDXMLEventValidationError' if v == 'EDXMLEventValidationError' else None) if d else 'undecided'
                  for v, d in zip(r['verdicts'], decided)]
         all_decided = all(decided)
-        # which record produced which event index
-        by_idx = {}
-        for o in ops:
-            if o['k'] == 'record' and o['events']:
-                by_idx[o['events'][0]['idx']] = case['ops'][o['n']][1]
+        by_exp = self._by_exp
         events = 'undecided'
         if all_decided:
             events = []
             for it in r['out']:
                 if it[0] == 'event':
-                    status, et, exp = classify(case, by_idx[it[1]])
+                    et, exp = by_exp[it[1]]
                     events.append({'type': et, 'source': it[2], 'props': sorted([k, v] for k, v in exp['props'].items())})
         return {'calls': calls, 'closed': None, 'parse': None, 'events': events,
                 'sources': sorted(set(r['sources'])) if all_decided else 'undecided'}
@@ -363,15 +388,15 @@ class C17(Property):
         for (op, c), (defined, cur) in zip(zip(case['ops'], obs['calls']), states):
             if op[0] != 'record':
                 continue
-            status, et, exp = classify(case, op[1])
-            if status == 'valid' and cur not in defined:
-                status = 'invalid'      # the event refers to a source that no ontology defines
-                exp = dict(exp, bad=['source-uri'])
-            if status == 'valid' and c is None:
-                want_min.append({'type': et, 'source': cur, 'props': sorted([k, v] for k, v in exp['props'].items())})
-            if status == 'invalid' and c is None and not case['ignore_invalid'] and not (case['repair_normalize'] or case['repair_drop']):
-                return 'record %s gives an invalid event (%s), invalid events are not ignored and not repaired, but process() did not raise' % (
-                    json.dumps(op[1], ensure_ascii=False, default=str)[:200], exp['bad'])
+            for status, et, exp in classify_all(case, op[1]):
+                if status == 'valid' and cur not in defined:
+                    status = 'invalid'      # the event refers to a source that no ontology defines
+                    exp = dict(exp, bad=['source-uri'])
+                if status == 'valid' and c is None:
+                    want_min.append({'type': et, 'source': cur, 'props': sorted([k, v] for k, v in exp['props'].items())})
+                if status == 'invalid' and c is None and not case['ignore_invalid'] and not (case['repair_normalize'] or case['repair_drop']):
+                    return 'record %s gives an invalid event (%s), invalid events are not ignored and not repaired, but process() did not raise' % (
+                        json.dumps(op[1], ensure_ascii=False, default=str)[:200], exp['bad'])
         got = [{'type': e['type'], 'source': e['source'], 'props': e['props']} for e in obs['events']]
         # every written event is valid (the validating parser accepted it); the valid-as-generated ones appear in order
         it = iter(got)
